@@ -776,6 +776,10 @@ func (m *Message) SetStaticCANID(staticCANID CANID) error {
 		} else {
 			nodeInt.sentMessageIDs.remove(m.id)
 			nodeInt.sentMessageStaticCANIDs.add(staticCANID, m.entityID)
+
+			if nodeInt.hasParentBus() {
+				nodeInt.parentBus.messageStaticCANIDs.add(staticCANID, m.entityID)
+			}
 		}
 	}
 
